@@ -353,11 +353,9 @@ func resizeImage(img image.Image, w int, h int, cellPixW int, cellPixH int) imag
 	newPixelWidth := wPix
 	newPixelHeight := hPix
 	switch {
-	case sfX == sfY:
-		// no-op
-	case sfX < sfY:
-		// Width is farther off, so set our new width to w and scale h
-		// appropriately
+	case sfX <= sfY:
+		// Width is farther off (or both are equally far off), so set
+		// our new width to w and scale h appropriately
 		newPixelWidth = int(sfX * float64(wPix))
 		newPixelHeight = int(sfX * float64(hPix))
 	case sfX > sfY:
